@@ -23,6 +23,12 @@ pub struct Fun {
     pub exps: Vec<(C, C)>,
     /// (amplitude, frequency, phase)
     pub sins: Vec<(f64, f64, f64)>,
+    /// coefficients in the Chebyshev basis (weighted Chebyshev routines only; requires x0 = 0,
+    /// s = 1): sum_k cheb[k] T_k(x) when cheb_kind == 1, sum_k cheb[k] U_k(x) when cheb_kind == 2.
+    /// The monomial basis cannot express a polynomial whose high Chebyshev coefficients matter
+    /// (x^k is 2^(1-k) T_k + ...), and only such polynomials make the routine use its last rules.
+    pub cheb_kind: u8,
+    pub cheb: Vec<C>,
 }
 
 fn c0() -> C {
@@ -169,7 +175,7 @@ pub fn moments(w: Weight, n: usize) -> (Vec<f64>, Vec<f64>) {
 
 impl Fun {
     pub fn zero(complex: bool) -> Fun {
-        Fun { complex, x0: 0.0, s: 1.0, poly: vec![], exps: vec![], sins: vec![] }
+        Fun { complex, x0: 0.0, s: 1.0, poly: vec![], exps: vec![], sins: vec![], cheb_kind: 0, cheb: vec![] }
     }
 
     #[inline]
@@ -184,6 +190,17 @@ impl Fun {
         }
         for (d, w, ph) in &self.sins {
             p += d * (w * x + ph).sin();
+        }
+        if !self.cheb.is_empty() {
+            // three-term recurrence, T_1 = x or U_1 = 2x
+            let (mut b0, mut b1) = (1.0, if self.cheb_kind == 1 { x } else { 2.0 * x });
+            p += self.cheb[0];
+            for c in self.cheb.iter().skip(1) {
+                p += c * b1;
+                let b2 = 2.0 * x * b1 - b0;
+                b0 = b1;
+                b1 = b2;
+            }
         }
         p
     }
@@ -202,6 +219,16 @@ impl Fun {
         for (d, w, ph) in &self.sins {
             p += d * (w * x + ph).sin();
         }
+        if !self.cheb.is_empty() {
+            let (mut b0, mut b1) = (1.0, if self.cheb_kind == 1 { x } else { 2.0 * x });
+            p += self.cheb[0].re;
+            for c in self.cheb.iter().skip(1) {
+                p += c.re * b1;
+                let b2 = 2.0 * x * b1 - b0;
+                b0 = b1;
+                b1 = b2;
+            }
+        }
         p
     }
 
@@ -218,7 +245,7 @@ impl Fun {
     }
 
     pub fn degree(&self) -> usize {
-        self.poly.len().saturating_sub(1)
+        self.poly.len().saturating_sub(1).max(self.cheb.len().saturating_sub(1))
     }
 
     pub fn is_polynomial(&self) -> bool {
@@ -228,6 +255,7 @@ impl Fun {
     /// int_a^b f, and a bound `mag` of sup |f| on [a,b] term by term (the natural scale of all
     /// rounding errors: of the quadrature sums and of this closed form)
     pub fn integral(&self, a: f64, b: f64) -> (C, f64) {
+        assert!(self.cheb.is_empty(), "Chebyshev-basis members are for the weighted Chebyshev routines only");
         let ta = (a - self.x0) / self.s;
         let tb = (b - self.x0) / self.s;
         let len = b - a;
@@ -313,6 +341,16 @@ impl Fun {
             val += c * mu[i];
             mag += c.norm() * am[i];
         }
+        if !self.cheb.is_empty() {
+            // orthogonality: only the k = 0 term contributes; int |T_k| w = 2 (k >= 1), int |U_k| w <= 2
+            assert!((w == Weight::Cheb1 && self.cheb_kind == 1) || (w == Weight::Cheb2 && self.cheb_kind == 2), "basis must match the weight");
+            let mu0 = if w == Weight::Cheb1 { pi } else { 0.5 * pi };
+            val += self.cheb[0] * mu0;
+            mag += self.cheb[0].norm() * mu0;
+            for c in self.cheb.iter().skip(1) {
+                mag += 2.0 * c.norm();
+            }
+        }
         for (c, r) in &self.exps {
             match w {
                 Weight::Laguerre => {
@@ -374,6 +412,7 @@ impl Fun {
             .set("poly", J::Arr(self.poly.iter().map(cj).collect()))
             .set("exps", J::Arr(self.exps.iter().map(|(c, r)| J::obj().set("c", cj(c)).set("rate", cj(r))).collect()))
             .set("sins", J::Arr(self.sins.iter().map(|(d, w, p)| J::obj().set("d", *d).set("w", *w).set("phi", *p)).collect()))
+            .set("chebyshev_basis", if self.cheb.is_empty() { J::Null } else { J::obj().set("basis", if self.cheb_kind == 1 { "+ sum_k coef[k] T_k(x)" } else { "+ sum_k coef[k] U_k(x)" }).set("coef", J::Arr(self.cheb.iter().map(cj).collect())) })
     }
 
     pub fn hash_into(&self, mut h: crate::rng::CaseHash) -> crate::rng::CaseHash {
@@ -386,6 +425,9 @@ impl Fun {
         }
         for (d, w, p) in &self.sins {
             h = h.f(*d).f(*w).f(*p);
+        }
+        for c in &self.cheb {
+            h = h.f(c.re).f(c.im);
         }
         h
     }
